@@ -749,9 +749,37 @@ def r5_ring_slots(prog, rep: Report):
         ok = lin is not None and _norm_lin(lin) == {"W": 1, "1": 1}
     elif isinstance(adv, ast.AugAssign):
         ok = False
-    rep.check("C15.R5", p, "advance", ok, f"self.{W} = (self.{W} + 1) % capacity",
-              f"put does not advance the write offset by exactly one modulo the capacity: `{src(adv) if adv is not None else '?'}`",
-              scenario="after a wrap-around the newest item is written over the wrong slot: list(buffer) is not the tail of the put history")
+    if not ok and not (isinstance(adv, ast.BinOp) and isinstance(adv.op, ast.Mod)):
+        # increment-and-wrap:  self.W += 1;  if self.W == cap (>=): self.W = 0      -- the same step without the modulo
+        from ..flow import Flow as _Fl2
+        from ..util import expand_all as _ea2
+        _pfl = _Fl2(p.node)
+        body = p.node.body
+        wrap_ok = None
+        for i_, st_ in enumerate(body):
+            if isinstance(st_, ast.AugAssign) and dotted(st_.target) == (p.self_name, W):
+                nxt_ = body[i_ + 1] if i_ + 1 < len(body) else None
+                inc1 = isinstance(st_.op, ast.Add) and const_value(st_.value) == 1
+                if inc1 and isinstance(nxt_, ast.If) and not nxt_.orelse and isinstance(nxt_.test, ast.Compare) and len(nxt_.test.ops) == 1 \
+                        and isinstance(nxt_.test.ops[0], (ast.Eq, ast.GtE)) and dotted(nxt_.test.left) == (p.self_name, W) \
+                        and is_cap(_ea2(nxt_.test.comparators[0], _pfl), p) and len(nxt_.body) == 1 and isinstance(nxt_.body[0], ast.Assign) \
+                        and dotted(nxt_.body[0].targets[0]) == (p.self_name, W) and const_value(nxt_.body[0].value, None) == 0:
+                    others_ = [x for x in ast.walk(p.node) if isinstance(x, (ast.Assign, ast.AugAssign)) and x is not st_ and x is not nxt_.body[0]
+                               and any(dotted(t_) == (p.self_name, W) for t_ in (x.targets if isinstance(x, ast.Assign) else [x.target]))]
+                    wrap_ok = not others_
+                else:
+                    wrap_ok = wrap_ok or False
+        if wrap_ok:
+            rep.ok("C15.R5", p, "advance", f"self.{W} += 1, wrapped to 0 when it reaches the capacity")
+        elif adv is None or wrap_ok is None:
+            rep.unrec("C15.R5", p, "advance", "how put advances the write offset was not recognised")
+        else:
+            rep.unrec("C15.R5", p, "advance", f"the write offset is advanced by `{src(adv) if isinstance(adv, ast.AST) else '?'}` without a "
+                      "modulo or a recognised wrap to 0")
+    else:
+      rep.check("C15.R5", p, "advance", ok, f"self.{W} = (self.{W} + 1) % capacity",
+                f"put does not advance the write offset by exactly one modulo the capacity: `{src(adv) if adv is not None else '?'}`",
+                scenario="after a wrap-around the newest item is written over the wrong slot: list(buffer) is not the tail of the put history")
     # reader
     idx = g.params[1]
     reads = [n for n in walk_own(g.node) if isinstance(n, ast.Subscript) and isinstance(n.ctx, ast.Load)
